@@ -315,6 +315,28 @@ theorem parseLoop_spec (rest : List Modinfo.Attr) : ∀ (pre ext : Bytes) (z : N
     rw [← hbuf, this]
     simp
 
+theorem dropWhile_stop (s : UInt8) (x r : Bytes) (hx : ∀ c ∈ x, c ≠ s) :
+    (x ++ s :: r).dropWhile (· ≠ s) = s :: r := by
+  induction x with
+  | nil => simp
+  | cons c x ih =>
+    have hc : c ≠ s := hx c (by simp)
+    simp only [List.cons_append, List.dropWhile_cons, hc, ne_eq, not_false_eq_true, decide_true, if_true]
+    exact ih (fun d hd => hx d (by simp [hd]))
+
+theorem splitNulAux_record (x rest cur : Bytes) (hx : ∀ c ∈ x, c ≠ 0) (hne : cur ≠ [] ∨ x ≠ []) :
+    Spec.splitNulAux (x ++ 0 :: rest) cur = (cur.reverse ++ x) :: Spec.splitNulAux rest [] := by
+  induction x generalizing cur with
+  | nil =>
+    have : cur ≠ [] := by rcases hne with h | h; exact h; exact absurd rfl h
+    have hc : cur.isEmpty = false := by cases cur <;> simp_all
+    simp [Spec.splitNulAux, hc]
+  | cons c x ih =>
+    have hc : c ≠ 0 := hx c (by simp)
+    simp only [List.cons_append, Spec.splitNulAux, hc, if_false]
+    rw [ih (c :: cur) (fun d hd => hx d (by simp [hd])) (Or.inl (by simp))]
+    simp
+
 /-! ### version chains: checked reads against the reference decoder -/
 
 theorem eq_ofNat_of_toNat {n : Nat} (x : BitVec n) (v : Nat) (h : x.toNat = v) : x = BitVec.ofNat n v := by
